@@ -139,10 +139,12 @@ def make_case(rc):
         source = 'SFormula %s' % C.cstr(formula)
     ov = rc.get('overrides', {})
     cells = dict(CELLS)
+    cells.update(rc.get('extra_cells', {}))          # e.g. cells in columns spelled like function names (IF, OR): wide sheets, a few cases only
     cells['A1'] = formula
     it, iv, fl = 'IOther', ('exc', 'OtherExc'), set()
     leak = None
     env = dict(CELLS)
+    env.update(rc.get('extra_cells', {}))
     env.update({k: C.jdec(v) for k, v in ov.items()})
     for v in env.values():
         if isinstance(v, float):
@@ -181,6 +183,9 @@ def make_case(rc):
             fl |= floats_of(tree, inst)
             if iv[0] == 'ok' and isinstance(iv[1], float):
                 fl.add(iv[1])
+    if it == 'IReject' and re.fullmatch(r'=[A-Z0-9$.+\-*/() ]+', formula) and not re.search(r'[+\-*/(]\s*[*/)]|\(\s*\)|[+\-*/]\s*$|\d\s+\d|[A-Z0-9)]\s*\(', formula) \
+            and formula.count('(') == formula.count(')') and rc.get('wellformed'):
+        leak = 'a well-formed arithmetic formula over numbers and references is rejected'
     if leak:
         it, iv = 'IOther', ('exc', 'OtherExc')           # reported as: the implementation leaves the model and the spec on this input
         rc = dict(rc, observed=leak)
@@ -259,6 +264,7 @@ def corpus():
           '=3e-1', '=12.034e-2', '=1.5e3', '=8/4&""', '=TRUE&""', '=E2&"x"', '="3"+1', '=C2+1', '=1/0', '=A2/A3', '=-1+2', '=2*-3+1', '=1+2<3', '=1+2&3',
           '=50%-1-2', '=8/50%*2', '=1%%', '=(2)%', '=2%*3', '=1.1%', '=$A$2+B$3', '= 1 + 2 * 3', '=1<2<3', '=2%+3', '=-A2+B2', '=1--2', '=+3', '=--3']
     rs = [{'formula': f} for f in fs]
+    rs += [{'formula': f, 'extra_cells': {'IF1': 4, 'OR1': 6}, 'wellformed': True} for f in ['=IF1+OR1*2', '=(IF1-OR1)*2', '=IF1*3-OR1/2', '=2*(IF1+1)', '=IF1<OR1', '=IF1&OR1']]
     rs += [{'formula': '=A2+B2*E2', 'overrides': {'A2': C.jenc(1.5), 'E2': C.jenc(4)}}, {'formula': '=-A2*B2', 'overrides': {'B2': C.jenc(-3)}},
            {'formula': '=A2&B3', 'overrides': {'A2': C.jenc('q')}}, {'formula': '=E2+A3', 'overrides': {}}, {'formula': '=A2%', 'overrides': {'A2': C.jenc(1.1)}}]
     rs += [x['witness'] for x in C.known_findings()['findings'] if x['property'] == 'C01']
@@ -290,7 +296,7 @@ def run(R, tier):
     R.extra['exhaustive_valid_formulas_up_to'] = maxvalid
     for _ in range(n_rand):
         numeric = R.rng.random() < 0.55
-        rc = {'formula': '=' + gen_expr(R.rng, R.rng.randint(1, 4), numeric)}
+        rc = {'formula': '=' + gen_expr(R.rng, R.rng.randint(1, 4), numeric), 'wellformed': True}
         if re.search(r'".*[?*].*"', rc['formula']):
             continue        # a * between two text literals is lexed as ONE wildcard-pattern literal (recorded under C07): not an operator formula any more
         if R.rng.random() < 0.35:
